@@ -9,6 +9,7 @@ pub mod json;
 pub mod labels;
 pub mod model;
 pub mod mon;
+pub mod mutwire;
 pub mod prng;
 pub mod props;
 pub mod rm;
